@@ -1,6 +1,7 @@
 (* Command dispatch (server.Manager.ExecCommand / memdb.CmdTable) over the keyspace model. *)
 Require Import Base.Bytes Base.GoInt Base.Reply Mem.Types Mem.Strings Mem.Lists.
 Require Import Mem.Hashes.
+Require Import Mem.Avl Mem.ZSets.
 Local Open Scope Z_scope.
 
 (* A command family: given the (already purged) database, the clock in s and ms, the
@@ -55,7 +56,7 @@ Definition lists_dispatch : family := fun d now nowms n args hint =>
   else if is n (B "brpop") then Some (exec_bpop false d nowms args)
   else None.
 
-Definition families : list family := [strings_dispatch; lists_dispatch; hashes_dispatch].
+Definition families : list family := [strings_dispatch; lists_dispatch; hashes_dispatch; zsets_dispatch].
 
 Fixpoint dispatch (fs : list family) (d : db) (now nowms : Z) (n : bytes) (args : list bytes)
          (hint : reply) : reply * db :=
